@@ -53,7 +53,7 @@ def rust_module(idx, d, skel):
     w = o.append
     w('#[allow(non_camel_case_types, non_snake_case, dead_code, unused_variables, unused_mut, unused_imports, private_interfaces, unreachable_patterns, clippy::all)]')
     w('pub mod m%d {' % idx)
-    w('use crate::rt::{self, Ctx, P, D0, D1, D2, D3};')
+    w('use crate::rt::{self, Ctx, P, D0, D1, D2, D3, DV};')
     w('use std::panic::{catch_unwind, AssertUnwindSafe};')
     w('use state_machines::state_machine;')
     w('use state_machines::core::{AroundOutcome, AroundStage, TransitionError, TransitionErrorKind};')
@@ -65,7 +65,7 @@ def rust_module(idx, d, skel):
     else:
         w('impl<C, S> %s<C, S> {' % name)
         ctxty = 'C'
-    snap = ', '.join('rt::opt_str(self.state_data_%s().map(|d| d.0))' % to_snake(s) for (s, _) in specs)
+    snap = ', '.join('rt::opt_str(self.state_data_%s().map(|d| d.get()))' % to_snake(s) for (s, _) in specs)
     w('  fn __snap(&self) -> String { let v: Vec<String> = vec![%s]; v.join("/") }' % snap)
     # async machines with an even index get hooks written as ordinary functions that do their bookkeeping when
     # CALLED and return the future (`fn g(&self, ..) -> impl Future`), the others get `async fn` hooks whose body
@@ -98,6 +98,9 @@ def rust_module(idx, d, skel):
         plv = 'Some(pl.0)' if hpl.get(cb) else 'None'
         hook_fn(cb, '&self%s' % plarg, '()',
                 'rt::begin("%s", "%s", rt::sname::<S>(), self.__snap(), rt::ctx_id(&self.ctx), %s)' % (kind, cb, plv), '()')
+    # what a legacy key (`action: legacy_value`) names: the generated code must never call it
+    if any(en[0] == 'legacy' for en in d):
+        w('  fn legacy_value(&mut self) { rt::stray("legacy_value"); }')
     for cb in hooks['around']:
         outcome = ('match a.val { rt::AnsVal::AbortGuard(n) => AroundOutcome::Abort(TransitionError { from: %s, event: "xx_ev", kind: TransitionErrorKind::GuardFailed { guard: n } }), '
                    'rt::AnsVal::AbortAction(n) => AroundOutcome::Abort(TransitionError { from: %s, event: "xx_ev", kind: TransitionErrorKind::ActionFailed { action: n } }), '
@@ -162,14 +165,14 @@ def rust_module(idx, d, skel):
     w('      ("mut", Holder_::T(mut t)) => { let v: u64 = op.a2.parse().unwrap(); let r = match op.a1.as_str() {')
     for (s, ty) in specs:
         acc = 'state_data_%s_mut' % to_snake(s)
-        arms = ', '.join('Typed_::%s(m) => m.%s().map(|d| d.0 += v).is_some()' % (l, acc) for l in leaves)
+        arms = ', '.join('Typed_::%s(m) => m.%s().map(|d| rt::bump(d, v)).is_some()' % (l, acc) for l in leaves)
         w('        "%s" => { let b = match &mut t { %s }; if b { "wrote:1" } else { "wrote:0" } }' % (s, arms))
     w('        _ => "nomethod" }; self.h = Holder_::T(t); r.to_string() }')
     # typed infallible mut
     w('      ("tmut", Holder_::T(mut t)) => { let v: u64 = op.a2.parse().unwrap(); let r = match (&mut t, op.a1.as_str()) {')
     for (s, ty) in specs:
         if s in leaves and (to_snake(s) + '_data_mut') in methods.get(s, []):
-            w('        (Typed_::%s(m), "%s") => match catch_unwind(AssertUnwindSafe(|| { m.%s_data_mut().0 += v; })) { Ok(()) => "ok", Err(_) => "panic:msg" },' % (s, s, to_snake(s)))
+            w('        (Typed_::%s(m), "%s") => match catch_unwind(AssertUnwindSafe(|| { rt::bump(m.%s_data_mut(), v); })) { Ok(()) => "ok", Err(_) => "panic:msg" },' % (s, s, to_snake(s)))
     w('        _ => "nomethod" }; self.h = Holder_::T(t); r.to_string() }')
     if dynamic:
         w('      ("dnew", old) => { drop(old); let ctx: u32 = op.a1.parse().unwrap(); self.h = Holder_::D(<%s>::new(Ctx(ctx))); "ok".to_string() }' % DM)
@@ -202,11 +205,11 @@ def rust_module(idx, d, skel):
             w('        match r { Ok(()) => "abandoned".to_string(), Err(p) => rt::panic_str(p) } }')
         w('      ("set", Holder_::D(mut d)) => { let v: u64 = op.a2.parse().unwrap(); let r = match op.a1.as_str() {')
         for (s, ty) in specs:
-            w('        "%s" => match d.set_%s_data(%s(v)) { Ok(()) => "ok".to_string(), Err(e) => rt::derr_str(&e) },' % (s, to_snake(s), ty))
+            w('        "%s" => match d.set_%s_data(<%s as DV>::make(v)) { Ok(()) => "ok".to_string(), Err(e) => rt::derr_str(&e) },' % (s, to_snake(s), ty))
         w('        _ => "nomethod".to_string() }; self.h = Holder_::D(d); r }')
         w('      ("mut", Holder_::D(mut d)) => { let v: u64 = op.a2.parse().unwrap(); let r = match op.a1.as_str() {')
         for (s, ty) in specs:
-            w('        "%s" => if d.%s_data_mut().map(|x| x.0 += v).is_some() { "wrote:1" } else { "wrote:0" },' % (s, to_snake(s)))
+            w('        "%s" => if d.%s_data_mut().map(|x| rt::bump(x, v)).is_some() { "wrote:1" } else { "wrote:0" },' % (s, to_snake(s)))
         w('        _ => "nomethod" }; self.h = Holder_::D(d); r.to_string() }')
         w('      ("into", Holder_::D(d)) => { match op.a1.as_str() {')
         for s in leaves:
@@ -224,13 +227,13 @@ def rust_module(idx, d, skel):
     w('      Holder_::T(t) => match t {')
     for s in leaves:
         if any(x == s for (x, _) in specs) and (to_snake(s) + '_data') in methods.get(s, []):
-            acc = 'match catch_unwind(AssertUnwindSafe(|| m.%s_data().0)) { Ok(v) => v.to_string(), Err(_) => "PANIC".to_string() }' % to_snake(s)
+            acc = 'match catch_unwind(AssertUnwindSafe(|| m.%s_data().get())) { Ok(v) => v.to_string(), Err(_) => "PANIC".to_string() }' % to_snake(s)
         else:
             acc = '"-".to_string()'
         w('        Typed_::%s(m) => format!("T:%s:{}:{}", m.__snap(), %s),' % (s, s, acc))
     w('      },')
     if dynamic:
-        accs = ', '.join('rt::opt_str(d.%s_data().map(|x| x.0))' % to_snake(s) for (s, _) in specs)
+        accs = ', '.join('rt::opt_str(d.%s_data().map(|x| x.get()))' % to_snake(s) for (s, _) in specs)
         w('      Holder_::D(d) => { let cur = match catch_unwind(AssertUnwindSafe(|| d.current_state())) { Ok(s) => s.to_string(), Err(_) => "!".to_string() };')
         w('        let v: Vec<String> = vec![%s]; format!("D:{}:{}", cur, v.join("/")) }' % accs)
     w('    }')
